@@ -31,7 +31,7 @@ def harness_table():
     for fn in sorted(os.listdir(KDIR)):
         if not fn.endswith('.rs'):
             continue
-        mod = fn[:-3]
+        mod = fn[:-3].split('.')[0]       # kani/<module>.rs and kani/<module>.<anything>.rs belong to the same source module
         txt = open(os.path.join(KDIR, fn)).read()
         lines = txt.split('\n')
         for i, line in enumerate(lines):
@@ -77,16 +77,18 @@ def make_crate(dst, skip_modules=()):
     os.makedirs(os.path.join(dst, '.cargo'), exist_ok=True)
     open(os.path.join(dst, '.cargo', 'config.toml'), 'w').write('[net]\noffline = true\n')
     missing = []
+    bymod = {}
     for fn in sorted(os.listdir(KDIR)):
-        if not fn.endswith('.rs'):
-            continue
-        sp = src_path_of(fn[:-3])
-        if fn[:-3] in skip_modules:
+        if fn.endswith('.rs'):
+            bymod.setdefault(fn[:-3].split('.')[0], []).append(fn)
+    for mod, fns_ in sorted(bymod.items()):
+        sp = src_path_of(mod)
+        if mod in skip_modules:
             continue
         if sp is None:
-            missing.append(fn)
+            missing.append(mod)
             continue
-        body = open(os.path.join(KDIR, fn)).read()
+        body = '\n'.join(open(os.path.join(KDIR, fn)).read() for fn in fns_)
         with open(os.path.join(dst, sp), 'a') as f:
             f.write('\n#[cfg(kani)]\n#[allow(unused_imports, dead_code)]\nmod verif_kani {\n    use super::*;\n    use crate::errors::TaError;\n    use crate::{Next, Reset, Period, Open, High, Low, Close, Volume};\n' + body + '\n}\n')
     return missing
@@ -182,7 +184,7 @@ def _run_harnesses(names, playback, timeout, cpath, skip):
                 if re.match(r'\s*error', blk):
                     for mm in re.finditer(r'-->\s*src/(?:indicators/)?(\w+)\.rs:(\d+)', blk):
                         bad.add(mm.group(1))
-            bad = tuple(sorted(b for b in bad if os.path.exists(os.path.join(KDIR, b + '.rs'))))
+            bad = tuple(sorted(b for b in bad if any(f.split('.')[0] == b for f in os.listdir(KDIR))))
             if bad:
                 shutil.rmtree(d, ignore_errors=True)
                 r = _run_harnesses(names, playback, timeout, None, bad)
@@ -213,7 +215,12 @@ def lane(pid, tier, cov, ledger, findings, assumptions):
     names = [h['name'] for h in table.values() if pid in h['props'] and (tier == 'thorough' or h['tier'] == 'quick')]
     if not names:
         return out
-    r = run_harnesses(names)
+    if os.environ.get('VERIF_KANI_BATCH'):
+        # one cargo-kani invocation for every harness of the tier (cached per tree state); used when all checks are run in a row
+        allnames = [h['name'] for h in table.values() if (tier == 'thorough' or h['tier'] == 'quick')]
+        r = run_harnesses(allnames)
+    else:
+        r = run_harnesses(names)
     open_f = {(f['property'], f['obligation']): f for f in findings.get('open', [])}
     n_ob = n_ok = 0
     samples = []
